@@ -3,7 +3,7 @@ PLAN = dict(
     rule=("permutations: one logical input (bundle; signed exchange with the mock algorithm: Write, DumpExchangeHeaders, DumpSignedMessage, header integrity, Signature "
           "header; bundle SignedSubset; cert chain; integrity block and data-to-be-signed; parameterised list; list of lists; MI encoding; Web Bundle ID) built with 2-4 "
           "different insertion orders of its header / parameter / attribute / subset-hash maps and serialised 8 times each: all outputs byte-identical. history: a pool of "
-          "2-4 objects and a drawn sequence of 4-24 interleaved serializer calls: every output equals the first output of that (object, serializer). concurrent (built with "
+          "2-4 objects and a drawn sequence of 4-24 interleaved serializer calls: every output equals the first output of that (object, serializer); about 40% of the drawn calls are FAILING or REFUSED calls on one of the objects (destination writer failing after k bytes, with and without a short write; a structured-header value or Signature header refused half-way), whose leftovers must not show in any later output (reference outputs are then taken before the first such call). concurrent (built with "
           "-race): 8-16 goroutines released in a drawn order, each running a drawn sequence of serializer and verifier calls over SHARED objects (generated objects, a parsed "
           "signed exchange with its certificate fetcher, a parsed signed bundle, version constants, the stateful-header tables, an Ed25519 key): outputs equal the sequential "
           "baseline and the race detector stays silent. mutation-history: a signed exchange object is edited step by step (headers, status, URL, payload, method) and after the edits Write / DumpExchangeHeaders / ComputeHeaderIntegrity of the edited object must equal those of a fresh object with identical fields (no hidden caches). shared-chain: 2-5 bundles are signed with ONE certificate chain value (1-4 certificates) and counter-signed by their own second authority, sequentially or from goroutines (race build); each bundle's bytes and authorities must stay what they were once all are signed, and the shared chain must be unchanged. first-use: in a fresh process (2-8 processes per run) the very first calls into every package are made by 16 goroutines at once (exposes lazily initialised package-level state). Non-trivial: >= 1 extra insertion order; >= 4 calls over >= 2 objects; every concurrent case."),
